@@ -57,9 +57,20 @@ def build(df, layout, scratch=None):
                 kw["divisions"] = divisions
             return dx.from_delayed(dl, **kw)
     if k == "parquet":
-        path = os.path.join(scratch, f"pq-{layout.get('tag', 0)}")
+        from vmon.util import fp
+
+        # the path is a function of the layout and of the table content, so the same program rebuilt in another process
+        # (receiver, namer, observer, replay) reads the same dataset and a widened / mutated table gets its own
+        path = os.path.join(scratch, f"pq-{layout.get('tag', 0)}-{fp(df)[:12]}")
         if not os.path.exists(path):
-            dx.from_pandas(df, npartitions=layout["npartitions"], sort=layout.get("sort", True)).to_parquet(path)
+            tmp = path + f".tmp{os.getpid()}"
+            dx.from_pandas(df, npartitions=layout["npartitions"], sort=layout.get("sort", True)).to_parquet(tmp)
+            try:
+                os.rename(tmp, path)
+            except OSError:
+                import shutil
+
+                shutil.rmtree(tmp, ignore_errors=True)
         kw = {}
         if layout.get("fs"):
             kw["filesystem"] = layout["fs"]
@@ -94,9 +105,16 @@ def known_divisions(parts):
     return tuple(divs)
 
 
-def random_layout(rng, df, allow_unknown=True, allow_empty=True):
+def random_layout(rng, df, allow_unknown=True, allow_empty=True, allow_files=True):
     n = len(df)
     sorted_idx = df.index.is_monotonic_increasing
+    import os
+
+    if allow_files and os.environ.get("VMON_SCRATCH") and rng.random() < 0.12 and df.index.name is not None or (allow_files and os.environ.get("VMON_SCRATCH") and rng.random() < 0.04):
+        # file-backed sources: multi-file parquet (both readers; column-projected reads get fused) and csv
+        if rng.random() < 0.8:
+            return {"kind": "parquet", "npartitions": rng.choice([2, 4, 6, 9]), "fs": rng.choice(["fsspec", "arrow"]), "calculate_divisions": rng.random() < 0.5 and bool(sorted_idx),
+                    "sort": bool(sorted_idx), "tag": rng.randrange(10**9)}
     r = rng.random()
     if r < 0.55:
         return {"kind": "from_pandas", "npartitions": rng.choice([1, 2, 3, 3, 4, 5, 7]), "sort": bool(sorted_idx)}
